@@ -42,10 +42,11 @@ def plan(tier, seed):
     nsh = 16
     groups = bijcheck.plan_structures(tier, seed, nsh)
     shards = [{"name": f"C02-{i}", "shard": i, "items": g, "x64": True, "timeout": 3400} for i, g in enumerate(groups)]
-    if tier == "thorough":
-        f32 = bijcheck.plan_structures("quick", seed + 1, 8)
-        shards += [{"name": f"C02-f32-{i}", "shard": 100 + i, "items": [it for it in g if it["origin"] != "random"], "x64": False,
-                    "timeout": 3400} for i, g in enumerate(f32)]
+    # float32 pass (the library's default precision): every leaf class and flow factory; thorough adds the combinators
+    f32 = bijcheck.plan_structures("quick", seed + 1, 8)
+    keep = ("leaf", "flow") if tier != "thorough" else ("leaf", "flow", "combinator")
+    shards += [{"name": f"C02-f32-{i}", "shard": 100 + i, "items": [it for it in g if it["origin"] in keep], "x64": False,
+                "timeout": 3400} for i, g in enumerate(f32)]
     return shards
 
 
